@@ -135,11 +135,34 @@ class Expectation:
         self.accepted_batch = accepted_batch
 
 
+def tag_decimals(v: Any) -> Any:
+    """what the application codec of pbt/codecs.py writes: Decimal -> 'decimal:<value>'"""
+    import decimal
+    if isinstance(v, decimal.Decimal):
+        return f'decimal:{v}'
+    if isinstance(v, (list, tuple)):
+        return [tag_decimals(x) for x in v]
+    if isinstance(v, dict):
+        return {k: tag_decimals(x) for k, x in v.items()}
+    return v
+
+
 def expect(text: str, registry: List[Dict[str, Any]], behaviours: Optional[Dict[str, Any]] = None,
-           max_batch_size: Optional[int] = None) -> Expectation:
+           max_batch_size: Optional[int] = None, codec: str = 'default') -> Expectation:
+    """codec != 'default': the dispatcher is configured with the application codec of pbt/codecs.py - methods see floats as
+    Decimal (the stdlib decoder with parse_float=Decimal is trusted) and the response document carries them as tagged strings"""
+    if codec == 'default':
+        return _expect(text, registry, behaviours, max_batch_size, json.loads)
+    import decimal
+    exp = _expect(text, registry, behaviours, max_batch_size, lambda t: json.loads(t, parse_float=decimal.Decimal))
+    exp.doc = tag_decimals(exp.doc)
+    return exp
+
+
+def _expect(text: str, registry: List[Dict[str, Any]], behaviours: Optional[Dict[str, Any]], max_batch_size: Optional[int], loads: Any) -> Expectation:
     behaviours = behaviours or {}
     try:
-        parsed = json.loads(text)
+        parsed = loads(text)
     except (ValueError, RecursionError):
         return Expectation(lib_error(-32700), [], [-32700], 'doc/not-json')
     if isinstance(parsed, list):
